@@ -42,6 +42,8 @@ def run(R):
         r7(R, m, methods)
     if R.want("C17.R8"):
         r8(R, m, methods)
+    if R.want("C17.R9"):
+        r9(R, m, methods)
 
 
 # --------------------------------------------------------------------------------------------------
@@ -127,6 +129,11 @@ def r1(R, m, methods):
                         resyncs.append((node, r))
         for stmt, what in w:
             nwrites += 1
+            if what == "rebind self.__data" and isinstance(stmt, ast.Assign) and isinstance(stmt.value, ast.Call) \
+                    and pyfacts.dotted(stmt.value.func) in ("list", "tuple") and len(stmt.value.args) == 1 and is_self_data(stmt.value.args[0]):
+                # the container changes, the columns in it do not (rows of the 2-D array become views of the same memory): nothing to re-point
+                R.inst("C17.R1", "columnfile.%s: %s keeps every column" % (name, src(stmt)))
+                continue
             wn = cfg.node_of(stmt)
             if wn is None:
                 R.fail("C17.R1: cannot place statement %s of %s in the CFG" % (src(stmt)[:50], name))
@@ -167,7 +174,18 @@ def r2(R, m, methods):
                     loops.append(("index", n))
             if isinstance(n, ast.ListComp) and len(n.generators) == 1 and is_self_data(n.generators[0].iter):
                 loops.append(("comp", n))
-        recognised = {id(n) for k_, n in loops}
+        # two-phase form: 'new = [col[sel] for col in self.__data]' then 'for col, vals in zip(self.__data, new): col[:] = vals' - the second
+        # loop stores what the first one computed, column by column (zip of the storage with a list built from the whole storage)
+        stores2 = []
+        for n in ast.walk(fn):
+            if isinstance(n, ast.For) and isinstance(n.iter, ast.Call) and pyfacts.dotted(n.iter.func) == "zip" and len(n.iter.args) == 2 \
+                    and is_self_data(n.iter.args[0]) and isinstance(n.target, ast.Tuple) and len(n.target.elts) == 2:
+                other = pyfacts.resolved(fn, n.iter.args[1], 2, keep=("self",))
+                if any(other_c for other_c in [x for x in ast.walk(other) if isinstance(x, ast.ListComp)]
+                       if any(k_ == "comp" and src(c_) == src(other_c) for k_, c_ in loops)):
+                    stores2.append(n)
+        loops = [(k_, n) for k_, n in loops]
+        recognised = {id(n) for k_, n in loops} | {id(n) for n in stores2}
         for n in ast.walk(fn):
             its = [n.iter] if isinstance(n, ast.For) else ([g.iter for g in n.generators] if isinstance(n, (ast.ListComp, ast.GeneratorExp)) else [])
             for it in its:
@@ -241,9 +259,48 @@ def r2(R, m, methods):
 
 
 # --------------------------------------------------------------------------------------------------
+def _first_element_unguarded(fn, name):
+    """[(subscript node, True when on every path to it `name` is known not to be empty)] for the reads name[0] in fn.
+    Non-emptiness: a dominating test len(name) > 0 / != 0 / >= 1 / `name` (true branch) or len(name) == 0 / not name (false branch);
+    a conditional expression `name[0] if len(name) else ...` counts for the read in its body."""
+    cfg = pyfacts.PyCFG(fn)
+    par = {}
+    for n_ in ast.walk(fn):
+        for c in ast.iter_child_nodes(n_):
+            par[c] = n_
+
+    def nonempty(t, pol):
+        t_ = src(t).replace(" ", "")
+        pos = ("len(%s)>0" % name, "len(%s)!=0" % name, "len(%s)>=1" % name, name, "0<len(%s)" % name, "len(%s)" % name)
+        neg = ("len(%s)==0" % name, "not%s" % name, "len(%s)<1" % name, "not(%s)" % name, "notlen(%s)" % name)
+        return (t_ in pos and pol) or (t_ in neg and not pol)
+    out = []
+    for sub in [x for x in ast.walk(fn) if isinstance(x, ast.Subscript) and src(x.value) == name and pyfacts.const_int(x.slice) == 0 and isinstance(x.ctx, ast.Load)]:
+        ok = False
+        cur = sub
+        while cur in par and not isinstance(cur, ast.stmt):
+            up = par[cur]
+            if isinstance(up, ast.IfExp) and ((cur is up.body and nonempty(up.test, True)) or (cur is up.orelse and nonempty(up.test, False))):
+                ok = True
+            cur = up
+        node = cfg.node_of(cur) if isinstance(cur, ast.stmt) else None
+        if node is not None and any(nonempty(t, pol) for t, pol in cfg.guards(node)):
+            ok = True
+        out.append((sub, ok))
+    return out
+
+
 def r3(R, m, methods):
     R.rule("C17.R3", "addcolumn, set_bigarray, __setattr__ (array case) and filter compare the incoming length with nrows "
-                     "before anything is stored")
+                     "before anything is stored; set_bigarray reads the first column only when there is one (an empty columnfile can be copied)")
+    sb = methods.get("set_bigarray")
+    if sb is not None and len(sb.args.args) >= 2:
+        arn = sb.args.args[1].arg
+        for sub, ok in _first_element_unguarded(sb, arn):
+            R.check(ok, "C17.R3", REL, sub.lineno, "columnfile.set_bigarray", "%s read only when the list of columns is not empty" % src(sub),
+                    "copy() / copyrows() hand set_bigarray the list of columns, which is empty for a columnfile without columns "
+                    "(newcolumnfile([]).copy(), columnfile(new=True).copyrows([])): %s raises IndexError, although an empty columnfile is a "
+                    "legitimate start state that addcolumn and filter accept" % src(sub))
     spec = {"addcolumn": ("col", "self.nrows"), "filter": ("mask", "self.nrows"), "__setattr__": ("value", "self.nrows"),
             "set_bigarray": ("ar", None)}
     for name, (arg, against) in spec.items():
@@ -466,10 +523,38 @@ def r7(R, m, methods):
     sup += [c for c in ast.walk(fn) if isinstance(c, ast.Call) and src(c.func) == "object.__setattr__" and len(c.args) == 3 and src(c.args[1]) == key]
     R.shape(bool(sup), "C17.R7", REL, "columnfile.__setattr__", "the call that binds the attribute (super().__setattr__(key, value))")
     n = 0
+
+    def atoms(guards):
+        """atomic facts (text, polarity) implied by a list of (test, polarity): conjunctions taken true and disjunctions taken false split"""
+        out = set()
+        for t, pol in guards:
+            if isinstance(t, ast.UnaryOp) and isinstance(t.op, ast.Not):
+                out |= atoms([(t.operand, not pol)])
+            elif isinstance(t, ast.BoolOp) and ((isinstance(t.op, ast.And) and pol) or (isinstance(t.op, ast.Or) and not pol)):
+                out |= atoms([(v_, pol) for v_ in t.values])
+            elif isinstance(t, ast.Compare) and len(t.ops) == 1 and isinstance(t.ops[0], ast.NotIn):
+                out.add((src(t.left).replace(" ", "") + "in" + src(t.comparators[0]).replace(" ", ""), not pol))
+            elif isinstance(t, ast.Compare) and len(t.ops) == 1 and isinstance(t.ops[0], ast.NotEq):
+                out.add((src(t.left).replace(" ", "") + "==" + src(t.comparators[0]).replace(" ", "").replace('"', "'"), not pol))
+            else:
+                out.add((src(t).replace(" ", "").replace('"', "'"), pol))
+        return out
+    F_TITLES = ("%s=='titles'" % key, True)
+    F_NOT_COLUMN = ("%sinself.titles" % key, False)
+
+    def not_a_column(guards):
+        """the path condition implies: key is 'titles' (set before self.titles exists) or key is not a column title"""
+        f = atoms(guards)
+        if F_TITLES in f or F_NOT_COLUMN in f:
+            return True
+        for t, pol in guards:
+            if isinstance(t, ast.BoolOp) and isinstance(t.op, ast.Or) and pol:
+                if all((F_TITLES in atoms([(d, True)])) or (F_NOT_COLUMN in atoms([(d, True)])) for d in t.values):
+                    return True
+        return False
     for c in sup:
         node = cfg.node_of(pyfacts.containing_stmt(c))
-        gs = [(src(t).replace(" ", ""), pol) for t, pol in cfg.guards(node)]
-        if ("%s=='titles'" % key, True) in gs or ('%s=="titles"' % key, True) in gs:
+        if F_TITLES in atoms(cfg.guards(node)):
             continue
         arg = c.args[-1]
         # on the path through 'key in self.titles' the value must have been re-read from the storage
@@ -479,7 +564,7 @@ def r7(R, m, methods):
             title_guard_seen = any(src(t).replace(" ", "") == "%sinself.titles" % key for t, pol in g + cfg.guards(node))
             if v is None:
                 # the parameter itself reaches the binding: acceptable only on the path where key is not a title
-                not_title = any(src(t).replace(" ", "") == "%sinself.titles" % key and not pol for t, pol in g + cfg.guards(node))
+                not_title = not_a_column(list(g) + list(cfg.guards(node)))
                 n += 1
                 R.check(not_title, "C17.R7", REL, c.lineno, "columnfile.__setattr__", "%s binds the assigned value only when %s is not a column title" % (src(c)[:50], key),
                         "for a column title the attribute is bound to the assigned value itself: 'c.x = 3.0' leaves a float attribute next to the "
@@ -514,8 +599,13 @@ def r8(R, m, methods):
                 if ("np.asarray" in t or "np.array(" in t or "numpy.asarray" in t) or src(a.value) == "self.__bigarray":
                     nd.append((name, a))
     n = 0
-    for name, fn in methods.items():
+    for name, fn0 in methods.items():
         cfg = None
+        # private helpers (self._x()) read in place: 'self._columns_to_list()' is the isinstance / list(...) statement it contains
+        try:
+            fn = m.ifunc("%s.%s" % (CLS, name), keep=("set_attributes", "filter", "reorder", "addcolumn", "setcolumn", "chkarray", "set_bigarray", "get_bigarray"))
+        except Exception:
+            fn = fn0
         for c in ast.walk(fn):
             if isinstance(c, ast.Call) and isinstance(c.func, ast.Attribute) and c.func.attr in ("append", "insert", "extend", "pop") and is_self_data(c.func.value):
                 n += 1
@@ -548,3 +638,61 @@ def r8(R, m, methods):
                         "after a read of .bigarray the storage is an ndarray (columnfile.%s: %s) and this call raises AttributeError - in addcolumn "
                         "after titles and ncols were already extended, leaving a title without a column" % (nd[0][0], src(nd[0][1])[:50]) if nd else "")
     R.shape(n >= 1, "C17.R8", REL, "columnfile", "a list operation on self.__data")
+
+
+# --------------------------------------------------------------------------------------------------
+def r9(R, m, methods):
+    """addcolumn keeps the array it is given (np.asanyarray / the bare argument), so after c.addcolumn(c.b, 'd') two slots of the
+    storage are ONE array.  A row operation that stores each column as soon as it has permuted it (col[:] = col[indices] inside
+    the loop over the storage) then permutes that array twice: a and c are sorted, b and d are not - the rows are torn.  Operations
+    that build new arrays (filter, copyrows) are not affected."""
+    R.rule("C17.R9", "row operations that store into the existing columns (reorder) read every column before they store any, because "
+                     "two titles may hold the same array (addcolumn / __setattr__ keep the caller's array)")
+    # premise: a writer that can put the caller's array into the storage uncopied
+    ac = methods.get("addcolumn")
+    R.shape(ac is not None and len(ac.args.args) >= 2, "C17.R9", REL, "columnfile.addcolumn", "addcolumn(self, col, name)")
+    param = ac.args.args[1].arg
+    alias = []
+    for st, what in data_writes(ac):
+        v = None
+        if isinstance(st, ast.Assign):
+            v = st.value
+        elif isinstance(st, ast.Expr) and st.value.args:
+            v = st.value.args[-1]
+        if v is None:
+            continue
+        rv = pyfacts.resolved(ac, v, 3, keep=("self", param))
+        k = pyfacts.copy_kind(rv, param)
+        if k is False:
+            alias.append(st)
+    R.inst("C17.R9", "addcolumn stores of the caller's array without a copy: %d" % len(alias))
+    fn = m.ifunc("%s.reorder" % CLS, keep=("set_attributes",))
+    stores = [s_ for s_ in ast.walk(fn) if isinstance(s_, ast.Assign) and isinstance(s_.targets[0], ast.Subscript)]
+    R.shape(len(stores) >= 1, "C17.R9", REL, "columnfile.reorder", "the in-place store of a permuted column")
+    par = {}
+    for n_ in ast.walk(fn):
+        for c in ast.iter_child_nodes(n_):
+            par[c] = n_
+    for st in stores:
+        loop = st
+        while loop in par and not isinstance(loop, ast.For):
+            loop = par[loop]
+        R.shape(isinstance(loop, ast.For), "C17.R9", REL, "columnfile.reorder", "the loop around %s" % src(st))
+        # does the stored value read a column of the storage inside this same loop?
+        colnames = set(x.id for x in ast.walk(loop.target) if isinstance(x, ast.Name))
+        direct = is_self_data(loop.iter) or (isinstance(loop.iter, ast.Call) and pyfacts.dotted(loop.iter.func) in ("enumerate", "range"))
+        rv = pyfacts.resolved(fn, st.value, 2, keep=tuple(colnames) + ("self",))
+        reads_col = [x for x in ast.walk(rv) if isinstance(x, ast.Subscript) and isinstance(x.ctx, ast.Load) and
+                     ((isinstance(x.value, ast.Name) and x.value.id in colnames and src(x.value) == src(st.targets[0].value)) or
+                      (isinstance(x.value, ast.Subscript) and is_self_data(x.value.value)))]
+        single_phase = bool(reads_col) and direct
+        if single_phase and alias:
+            R.check(False, "C17.R9", REL, st.lineno, "columnfile.reorder", "%s inside the loop over the columns" % src(st),
+                    "each column is stored as soon as it is permuted, but addcolumn (line %d) keeps the caller's array: after "
+                    "c.addcolumn(c.b, 'd') the titles b and d are one array, which sortby('a') permutes twice (back to its old order) while a "
+                    "and c are sorted - the rows no longer belong together" % alias[0].lineno)
+        elif single_phase:
+            R.inst("C17.R9", "reorder stores column by column; no writer keeps a caller's array")
+        else:
+            R.inst("C17.R9", "reorder: %s stores values computed before the storing loop" % src(st))
+    R.floor("C17.R9", 2)
